@@ -399,6 +399,10 @@ class Arith:
                 return Opaque("str")
             return Opaque("str")
         if isinstance(a, SList) or isinstance(b, SList):
+            if t is ast.Add and isinstance(a, (SList, list)) and isinstance(b, (SList, list)):
+                la = a.items if isinstance(a, SList) else [(z3.BoolVal(True), x) for x in a]
+                lb = b.items if isinstance(b, SList) else [(z3.BoolVal(True), x) for x in b]
+                return SList(list(la) + list(lb))
             raise Unsupported("list arithmetic on SList")
         if not self.is_sym(a) and not self.is_sym(b):
             if t in (ast.Div, ast.FloorDiv, ast.Mod) and b == 0:
